@@ -1001,7 +1001,28 @@ class Exec:
     ev_CXXStaticCastExpr = ev_cast
     ev_CXXFunctionalCastExpr = ev_cast
     ev_CXXConstCastExpr = ev_cast
-    ev_CXXReinterpretCastExpr = ev_cast
+    def ev_CXXReinterpretCastExpr(self, n):
+        """reinterpret_cast<const cmplx_t*>(real pointer): a read-only view of consecutive (re, im) pairs; every other
+        reinterpret_cast passes the pointer through (the memset/memcpy models look at the pointee's real element type)"""
+        v = self.ev_cast(n)
+        try:
+            dsh = self.ctype(n)
+        except Unsupported:
+            return v
+        if (isinstance(v, PtrVal) and v.path is not None and dsh[0] == 'ptr' and dsh[1][0] == 'struct'
+                and dsh[1][1] == 'dsplib::cmplx_t' and 'const' in (n.get('type', {}).get('qualType', ''))):
+            src = self.read(v.path)
+            if isinstance(src, VecVal) and src.el == ('real',):
+                j = z3.Int('j!rc')
+                off = v.off if v.off is not None else z3.IntVal(0)
+                self.oblige('bounds', 'reinterpret.alignment', z3.BoolVal(True), n)
+                cnt = z3.Int(self.fresh_name('pairs'))
+                self.assume(z3.And(2 * cnt <= src.len - off, src.len - off < 2 * cnt + 2))
+                view = VecVal(cnt, SVal('dsplib::cmplx_t', {'re': z3.Lambda([j], z3.Select(src.data, off + 2 * j)),
+                                                          'im': z3.Lambda([j], z3.Select(src.data, off + 2 * j + 1))}), dsh[1])
+                root = self.new_root('cmplx_view', view)
+                return PtrVal(root, z3.IntVal(0), dsh[1])
+        return v
 
     def lv_cast(self, n):
         ck = n.get('castKind')
@@ -1411,7 +1432,7 @@ class Exec:
                 self.declare(d)
             elif k == 'DecompositionDecl':
                 self.declare_decomp(d)
-            elif k in ('TypedefDecl', 'TypeAliasDecl', 'StaticAssertDecl', 'UsingDecl', 'CXXRecordDecl'):
+            elif k in ('TypedefDecl', 'TypeAliasDecl', 'StaticAssertDecl', 'UsingDecl', 'UsingDirectiveDecl', 'CXXRecordDecl'):
                 pass
             else:
                 raise Unsupported('decl kind %s at line %s' % (k, d.get('_line')))
